@@ -7,7 +7,7 @@ specification's own step operators)."""
 import json
 import random
 
-from vlib import Broken, Verdict, log, read_ndjson, write_ndjson, require_coverage
+from vlib import unreproduced as vlib_unreproduced, Broken, Verdict, log, read_ndjson, write_ndjson, require_coverage
 
 FAMILIES = {
     "c12": ("U12", "P12"),
@@ -81,15 +81,16 @@ def design_and_generate(w, fam, coverage=True, maxrules=2):
 
 def normalise(o):
     if "final" in o and "id" in o:
-        for k in ("final", "extra", "reqs", "prot"):
+        for k in ("final", "extra", "reqs", "prot", "reqs2"):
             if o.get(k) is None:
                 o[k] = []
+        o.setdefault("result2", "")
         return o
     scn = o.get("scn") or {}
     n = dict(scn)
     n.pop("expfs", None)
     n.pop("expreqs", None)
-    n.update({"result": "err", "reqs": [], "final": [], "extra": [], "lit": 0})
+    n.update({"result": "err", "reqs": [], "final": [], "extra": [], "lit": 0, "reqs2": [], "result2": ""})
     n.setdefault("judge", [])
     if o.get("crashed"):
         n["err"] = "CRASHED: " + (o.get("stderr") or "")[:1500]
@@ -122,7 +123,7 @@ def run(w, fam, scen, label, recvs=("client", "daemon"), chunks=(0,), case_timeo
         for rv in recvs:
             i += 1
             d = {k: v for k, v in s.items() if k not in ("expfs", "expreqs")}
-            d.update({"id": i, "recv": rv, "chunk": chunks[i % len(chunks)], "judge": list(judge)})
+            d.update({"id": i, "recv": rv, "chunk": chunks[i % len(chunks)], "judge": list(judge), "repeat": "repeat" in judge})
             lines.append(d)
     sf, of = w.path("rscen-%s.ndjson" % label), w.path("robs-%s.ndjson" % label)
     write_ndjson(sf, lines)
@@ -150,8 +151,7 @@ def run_validate_confirm(w, fam, scen, label, v, counts, sigfn, recvs=("client",
         w.run_harness("recv", sf2, of2)
         obs2 = [normalise(o) for o in read_ndjson(of2)]
         rej2, _, _, where2 = validate(w, fam, obs2, label + "-confirm")
-        if set(rej) - set(rej2):
-            raise Broken("rejections not reproduced on re-run: ids %s" % sorted(set(rej) - set(rej2))[:10])
+        vlib_unreproduced(v, rej, rej2)
         exp = {}
         k = 0
         for s in scen:
